@@ -106,10 +106,13 @@ namespace adm {
         resolveReference(trackUidPackFormatRef_);
         resolveReferences(packFormatChannelFormatRefs_);
         resolveReferences(packFormatPackFormatRefs_);
+        // resolve the audioStreamFormat's ordered list first, so that its
+        // order is the one given in the file and not the order in which the
+        // audioTrackFormats add themselves as back references
+        resolveReferences(streamFormatTrackFormatRefs_);
         resolveReference(trackFormatStreamFormatRef_);
         resolveReference(streamFormatChannelFormatRef_);
         resolveReference(streamFormatPackFormatRef_);
-        resolveReferences(streamFormatTrackFormatRefs_);
 
       } else {
         throw error::XmlParsingError("audioFormatExtended node not found");
